@@ -207,34 +207,42 @@ End Resume.
 
 (* ====================================================================== per-class picklability *)
 
-Lemma all_picklable_but_ecddwt : forall c, c <> C_ECDDWT -> picklable_cls c = true.
+(** revisions in which the ECDD config does not hold the class-body lambda: all 35 classes *)
+Lemma all_picklable : forall r c, r <> StoresLambda -> picklable_cls r c = true.
+Proof. intros r c H. destruct r; [contradiction H; reflexivity | |]; destruct c; reflexivity. Qed.
+
+(** the revision as found: every class but ECDDWT *)
+Lemma all_picklable_but_ecddwt : forall c, c <> C_ECDDWT -> picklable_cls StoresLambda c = true.
 Proof. intros c H. destruct c; try reflexivity. contradiction H; reflexivity. Qed.
 
 Lemma ecddwt_not_picklable :
-  exists c, In c all_classes /\ cls_kind c = KDetector /\ picklable_cls c = false /\
-            In ("._config.control_limit_func"%string, ClassBodyLambda) (callable_fields c).
+  exists c, In c all_classes /\ cls_kind c = KDetector /\ picklable_cls StoresLambda c = false /\
+            In ("._config.control_limit_func"%string, ClassBodyLambda) (callable_fields StoresLambda c).
 Proof. exists C_ECDDWT. repeat split; vm_compute; tauto. Qed.
 
 Lemma all_classes_complete : forall c, In c all_classes.
 Proof. intros c; destruct c; vm_compute; tauto. Qed.
 
-Lemma picklable_graph_iff : forall cs,
-  picklable_graph cs = true <-> (forall c, In c cs -> picklable_cls c = true).
-Proof. intros cs. unfold picklable_graph. apply forallb_forall. Qed.
+Lemma picklable_graph_iff : forall r cs,
+  picklable_graph r cs = true <-> (forall c, In c cs -> picklable_cls r c = true).
+Proof. intros r cs. unfold picklable_graph. apply forallb_forall. Qed.
 
 (** a callback attached to ECDD-WT is not picklable either (the back-reference reaches the config),
     and every other detector / callback combination is *)
-Lemma graph_with_ecddwt : forall cs, In C_ECDDWT cs -> picklable_graph cs = false.
+Lemma graph_with_ecddwt : forall cs, In C_ECDDWT cs -> picklable_graph StoresLambda cs = false.
 Proof.
-  intros cs H. destruct (picklable_graph cs) eqn:E; [|reflexivity].
+  intros cs H. destruct (picklable_graph StoresLambda cs) eqn:E; [|reflexivity].
   rewrite picklable_graph_iff in E. specialize (E _ H). discriminate E.
 Qed.
 
-Lemma graph_without_ecddwt : forall cs, ~ In C_ECDDWT cs -> picklable_graph cs = true.
+Lemma graph_without_ecddwt : forall cs, ~ In C_ECDDWT cs -> picklable_graph StoresLambda cs = true.
 Proof.
   intros cs H. apply picklable_graph_iff. intros c Hc. apply all_picklable_but_ecddwt.
   intros ->. exact (H Hc).
 Qed.
+
+Lemma graph_picklable_fixed : forall r cs, r <> StoresLambda -> picklable_graph r cs = true.
+Proof. intros r cs H. apply picklable_graph_iff. intros c _. apply all_picklable; exact H. Qed.
 
 (* ====================================================================== the contract is satisfiable *)
 
